@@ -155,6 +155,16 @@ def deps_of(vfile):
     return seen
 
 
+def extra_models_of(prop):
+    """EXTRA_MODELS declared (as a literal list) in harness/props/<prop>.py, read without importing it."""
+    try:
+        txt = open(os.path.join(VERIF, "harness", "props", f"{prop.lower()}.py")).read()
+    except OSError:
+        return []
+    m = re.search(r"^EXTRA_MODELS\s*=\s*\[([^\]]*)\]", txt, re.M)
+    return re.findall(r"[\"']([A-Za-z0-9_]+)[\"']", m.group(1)) if m else []
+
+
 def claimed_properties():
     import json
     try:
@@ -182,11 +192,11 @@ if __name__ == "__main__":
             for t in (f"Props/{prop}.vo", f"Extract/Ex{prop}.vo"):
                 if os.path.exists(os.path.join(COQ, t[:-1])) and not os.path.exists(os.path.join(COQ, t)):
                     bad.append(t)
-            if os.path.exists(os.path.join(COQ, f"Extract/Ex{prop}.v")):
-                okm, msg = build_modelrun(prop)
-                print("modelrun", prop, "ok" if okm else "FAILED " + msg)
+            for m in ([prop] if os.path.exists(os.path.join(COQ, f"Extract/Ex{prop}.v")) else []) + extra_models_of(prop):
+                okm, msg = build_modelrun(m)
+                print("modelrun", m, "ok" if okm else "FAILED " + msg)
                 if not okm:
-                    bad.append("modelrun_" + prop.lower())
+                    bad.append("modelrun_" + m.lower())
         if bad:
             print("setup FAILED for claimed targets:", bad)
             sys.exit(1)
